@@ -515,7 +515,7 @@ PROPS = {
     "C12": dict(storage=True),
     "C13": dict(storage=True),
     "C15": dict(fams=[("core", 2), ("crash", 2), ("snap", 2), ("member5", 2)], corpus=["core", "crash", "snap", "member"], mc="MC_heal", mc_deep="MC_heal_deep", mc_module="Heal", healstates=True),
-    "C16": dict(fams=[("healthy", 5), ("core", 2)], corpus=["healthy"], mc=None),
+    "C16": dict(fams=[("healthy", 5), ("core", 2)], corpus=["healthy"], mc="MC_async3"),
     "C17": dict(fams=[("lease", 6)], corpus=["lease"], mc="MC_timed", mc_module="RaftTimed"),
     "C18": dict(fams=[("core", 1)], corpus=["api"], api=True, mc=None),
 }
